@@ -59,8 +59,8 @@ Proof.
   - change (Z.of_nat 1) with 1. cbn [Z.eqb Pos.eqb andb]. norm_guard. split_cmp.
   - change (Z.of_nat 2) with 2. cbn [Z.eqb Pos.eqb andb]. norm_guard. split_cmp.
   - pose proof (T_ge_128 (S (S (S (S N)))) ltac:(lia)).
-    repeat match goal with |- context [Z.eqb ?a ?b] => destruct (Z.eqb_spec a b); try lia end.
-    cbn [andb]. split; [discriminate|]. intros; lia.
+    repeat match goal with |- context [Z.eqb (Z.of_nat ?a) ?b] => destruct (Z.eqb_spec (Z.of_nat a) b); try lia end;
+      cbn [andb]; (split; [discriminate|intros; lia]).
 Qed.
 
 (* width 0: the value 0 fits, the conversions do not succeed (recorded finding, not repaired) *)
@@ -114,23 +114,23 @@ Qed.
 (* ======================================================================================== [CURRENT] end *)
 
 (* ======================================================================================== [FIXED] begin
-Lemma tryfrom_u128_guard3_fixed v : 0 <= v < 2 ^ 128 ->
-  tryfrom_u128_rejects 3 v = true <-> ~ u32s_fits 3 v.
-Proof.
-  intros Hv. rewrite fits_T. unfold tryfrom_u128_rejects. cbn [Z.eqb Pos.eqb andb]. close_consts v. norm_guard. split_cmp.
-Qed.
+  Lemma tryfrom_u128_guard3_fixed v : 0 <= v < 2 ^ 128 ->
+    tryfrom_u128_rejects 3 v = true <-> ~ u32s_fits 3 v.
+  Proof.
+    intros Hv. rewrite fits_T. unfold tryfrom_u128_rejects. cbn [Z.eqb Pos.eqb andb]. close_consts v. norm_guard. split_cmp.
+  Qed.
 
-Theorem tryfrom_u128_guard_exact N v : N <> 0%nat -> 0 <= v < 2 ^ 128 ->
-  tryfrom_u128_rejects (Z.of_nat N) v = true <-> ~ u32s_fits N v.
-Proof.
-  intros HN Hv. destruct (Nat.eq_dec N 3) as [->|Hn3]; [|apply tryfrom_u128_guard_exact_not3; auto].
-  change (Z.of_nat 3) with 3. apply tryfrom_u128_guard3_fixed. exact Hv.
-Qed.
+  Theorem tryfrom_u128_guard_exact N v : N <> 0%nat -> 0 <= v < 2 ^ 128 ->
+    tryfrom_u128_rejects (Z.of_nat N) v = true <-> ~ u32s_fits N v.
+  Proof.
+    intros HN Hv. destruct (Nat.eq_dec N 3) as [->|Hn3]; [|apply tryfrom_u128_guard_exact_not3; auto].
+    change (Z.of_nat 3) with 3. apply tryfrom_u128_guard3_fixed. exact Hv.
+  Qed.
 
-Theorem try_from_u128_spec N v : N <> 0%nat -> 0 <= v < 2 ^ 128 ->
-  (u32s_fits N v -> exists r, u32s_try_from_u128 N v = Done r /\ u32s_wf N r /\ u32s_value r = v) /\
-  (~ u32s_fits N v -> u32s_try_from_u128 N v = Rej).
-Proof.
-  intros HN Hv. apply try_from_u128_of_guard; [lia|]. apply tryfrom_u128_guard_exact; auto.
-Qed.
+  Theorem try_from_u128_spec N v : N <> 0%nat -> 0 <= v < 2 ^ 128 ->
+    (u32s_fits N v -> exists r, u32s_try_from_u128 N v = Done r /\ u32s_wf N r /\ u32s_value r = v) /\
+    (~ u32s_fits N v -> u32s_try_from_u128 N v = Rej).
+  Proof.
+    intros HN Hv. apply try_from_u128_of_guard; [lia|]. apply tryfrom_u128_guard_exact; auto.
+  Qed.
    ======================================================================================== [FIXED] end *)
